@@ -535,7 +535,19 @@ def code_scalar(name, impl, description=None):
 
     if impl == "date":
         return ScalarType(name, serialize=_date_serialize, parse=_date_parse, parse_literal=_date_parse_literal, description=description)
+    if impl == "typed":
+        return ScalarType(name, serialize=lambda v: v, parse=lambda v: v, parse_literal=_typed_parse_literal, description=description)
     return ScalarType(name, serialize=lambda v: v, parse=lambda v: v, parse_literal=lambda node, _v=None: node.value, description=description)
+
+
+def _typed_parse_literal(node, _variables=None):
+    """kind-faithful pass-through: Int -> int, Float -> float, Boolean -> bool, String -> str"""
+    k = type(node).__name__
+    if k == "IntValue":
+        return int(node.value)
+    if k == "FloatValue":
+        return float(node.value)
+    return node.value
 
 
 def code_enum(t):
